@@ -4,8 +4,9 @@ from vlib import core, cluster, netrunner
 from vlib.runner import Failure
 
 PID = "C05"
-LEAN_MODULE = "NunVerif.Props.C05"
-THEOREMS = ["Nun.C05_full_sync_names_every_db", "Nun.C05_full_sync_names_every_key", "Nun.C05_finding_first_word_lost", "Nun.C05_live_format_is_exact", "Nun.C05_finding_strategy_not_sent"]
+LEAN_MODULE = "NunVerif.Props.C05Atomic"
+THEOREMS = ["Nun.C05_full_sync_names_every_db", "Nun.C05_full_sync_names_every_key", "Nun.C05_finding_first_word_lost", "Nun.C05_live_format_is_exact", "Nun.C05_finding_strategy_not_sent",
+            "Nun.C05_sync_is_one_critical_section", "Nun.C05_fanout_is_one_critical_section"]
 
 VALUES = ["x{v}", "two words {v}", "{v} leading number", "7", "-1 looks like a version"]
 def gen_ops(rng, n, ctr, dbs=("t",)):
